@@ -327,23 +327,45 @@ func Ops() []OpDef {
 			c.Begin()
 			return rres(c.G.SendWithCallbacks("clear logging", []*generic.Callback{cb1, cb2}, t))
 		}})
-	add(OpDef{Name: "network.AcquirePriv", Kind: "cli", ErrClass: "timeout", Setup: cliSetup("network", "exec", false, false, "exec"),
+	add(OpDef{Name: "network.AcquirePriv", Kind: "cli", ErrClass: "timeout", Recovery: true, Setup: cliSetup("network", "exec", false, false, "exec"),
 		Call: func(c *OpCtx, _ time.Duration) (string, error) {
 			c.Begin()
 			return "", c.N.AcquirePriv("configuration")
 		}})
-	add(OpDef{Name: "network.AcquirePriv-auth", Kind: "cli", ErrClass: "timeout", Setup: cliSetup("network", "exec", true, true, "exec"),
+	add(OpDef{Name: "network.AcquirePriv-auth", Kind: "cli", ErrClass: "timeout", Recovery: true, Setup: cliSetup("network", "exec", true, true, "exec"),
 		Call: func(c *OpCtx, _ time.Duration) (string, error) {
 			c.Begin()
 			return "", c.N.AcquirePriv("privilege-exec")
 		}})
-	add(OpDef{Name: "network.SendCommand-implicit-priv", Kind: "cli", Override: true, ErrClass: "privilege|timeout", Recovery: false,
+	add(OpDef{Name: "network.SendCommand-implicit-priv", Kind: "cli", Override: true, ErrClass: "privilege|timeout", Recovery: true,
 		Setup: cliSetup("network", "exec", false, false, "privilege-exec"),
 		Call: func(c *OpCtx, o time.Duration) (string, error) {
 			c.Begin()
 			return rres(c.N.SendCommand(Cmd1, tmo(o)...))
 		}, Want: Out1})
-	add(OpDef{Name: "network.SendConfigs", Kind: "cli", Override: true, ErrClass: "timeout", Setup: cliSetup("network", "privilege-exec", false, false, "privilege-exec"),
+	add(OpDef{Name: "network.SendConfigs", Kind: "cli", Override: true, ErrClass: "timeout", Recovery: true, Setup: cliSetup("network", "privilege-exec", false, false, "privilege-exec"),
+		Call: func(c *OpCtx, o time.Duration) (string, error) {
+			c.Begin()
+			return mres(c.N.SendConfigs([]string{"hostname x", "no shutdown"}, tmo(o)...))
+		}, Want: "|"})
+	// the same two with a warm privilege cache (a command ran before, so the driver believes it knows its
+	// level): an interrupted hop must not leave that belief standing
+	warm := func(setup func(c *OpCtx) error) func(c *OpCtx) error {
+		return func(c *OpCtx) error {
+			if err := setup(c); err != nil {
+				return err
+			}
+			_, err := c.N.SendCommand(Cmd2)
+			return err
+		}
+	}
+	add(OpDef{Name: "network.AcquirePriv-warm", Kind: "cli", ErrClass: "timeout", Recovery: true, Setup: warm(cliSetup("network", "exec", false, false, "exec")),
+		Call: func(c *OpCtx, _ time.Duration) (string, error) {
+			c.Begin()
+			return "", c.N.AcquirePriv("configuration")
+		}})
+	add(OpDef{Name: "network.SendConfigs-warm", Kind: "cli", Override: true, ErrClass: "timeout", Recovery: true,
+		Setup: warm(cliSetup("network", "privilege-exec", false, false, "privilege-exec")),
 		Call: func(c *OpCtx, o time.Duration) (string, error) {
 			c.Begin()
 			return mres(c.N.SendConfigs([]string{"hostname x", "no shutdown"}, tmo(o)...))
